@@ -33,12 +33,12 @@ MUT_FUNCS = ["PrefixMap::get_mut", "PrefixMap::get_lpm_mut", "PrefixMap::childre
 
 
 def run_config(ctx, rep, cfg, F):
-    S.run_ops(ctx, rep, cfg, F, ["union", "intersection", "difference", "covering"], RULES, "struct", 2600, only_mut=True)
+    S.run_ops(ctx, rep, cfg, F, ["union", "intersection", "difference", "covering"], RULES, "struct", 1100, only_mut=True)
     r2 = engine.Renamed(rep, lambda r: "R13.2" if r not in ("floor",) else r)
     c03.run_config(ctx, r2, cfg, F,
                    walkers={k: v for k, v in c03.WALKERS.items() if "Mut" in k},
                    ctors={k: v for k, v in c03.CTORS.items() if "mut" in k.lower()}, extras=False, floor=20)
-    c02.run_config(ctx, r2, cfg, F, funcs={"PrefixMap::get_lpm_mut": c02.LPM["PrefixMap::get_lpm_mut"]}, floor=100)
+    c02.run_config(ctx, r2, cfg, F, funcs={"PrefixMap::get_lpm_mut": c02.LPM["PrefixMap::get_lpm_mut"]}, floor=200)
     c11.run_config(ctx, r2, cfg, F, only_acc={k: v for k, v in c11.ACC.items() if k.endswith("_mut")})
     # get_mut through the observer rule of C01
     short = "PrefixMap::get_mut"
@@ -76,7 +76,7 @@ def run_config(ctx, rep, cfg, F):
                             "%s is a mutable traversal / accessor but performs %s" % (name, e), config=cfg)
                     break
     rep.ok("R13.3", "mutable traversals", "no structural effect")
-    rep.floor("mutable-traversal paths checked for side effects (%s)" % cfg, n, 3000)
+    rep.floor("mutable-traversal paths checked for side effects (%s)" % cfg, n, 1500)
 
 
 def finalize(ctx, rep):
